@@ -89,15 +89,6 @@ theorem heap_history_frame (o : Ops V) (ops : List (Op V)) (w : Wd V) (h : GoodT
     intro id hni
     rw [j3 id (by rw [e1]; exact hni), e3 id hni]
 
-/-- what a track shows depends only on the objects it refers to -/
-theorem view_congr (heap heap' : List (HObs V)) (ids : List Nat) (dico : List (String × Nat))
-    (h : ∀ id ∈ ids, heap'[id]? = heap[id]?) :
-    view { heap := heap', ids := ids, dico := dico } = view { heap := heap, ids := ids, dico := dico } := by
-  unfold view
-  simp only [St.mk.injEq, true_and]
-  refine ⟨?_, ?_, ?_, ?_, ?_⟩ <;>
-    (apply List.map_congr_left; intro id hm; simp only [featsAt, coordAt, h id hm])
-
 /-- W4: a track that shares no object with the track a history is run on shows exactly the same table after it —
 names, every column, every row, coordinates and timestamps —, whatever the calls and their outcomes. -/
 theorem other_track_unchanged (o : Ops V) (ops : List (Op V)) (w : Wd V) (h : GoodTrack n w)
@@ -261,28 +252,6 @@ theorem derive_loopAdd_is_addCopy (o : Ops V) (s : Sys V) (k : Nat) :
     s.derive o .loopAdd k = s.derive o (.addCopy 0 none) k := by
   unfold Sys.derive
   rfl
-
-theorem copyMemo_eq_copyEach : ∀ (ids : List Nat) (memo : List (Nat × Nat)) (heap : List (HObs V)), ids.Nodup →
-    (∀ id ∈ ids, memo.lookup id = none) → copyMemo ids memo heap = copyEach ids heap := by
-  intro ids
-  induction ids with
-  | nil => intro _ _ _ _; rfl
-  | cons id rest ih =>
-    intro memo heap hnd hm
-    obtain ⟨hni, hnd'⟩ := List.nodup_cons.mp hnd
-    simp only [copyMemo, copyEach, hm id (by simp)]
-    cases allocCopy heap id with
-    | none => rfl
-    | some r =>
-      obtain ⟨nid, h1⟩ := r
-      simp only
-      rw [ih _ _ hnd' ?_]
-      intro id' hm'
-      have hne : (id' == id) = false := by
-        simp only [beq_eq_false_iff_ne, ne_eq]
-        intro e; exact hni (e ▸ hm')
-      simp only [List.lookup_cons, hne]
-      exact hm id' (by simp [hm'])
 
 /-- D6: `Track.copy()` (`copy.deepcopy` of the track) of a track of pairwise distinct objects makes one new object per
 position, like `[o.copy() for o in track]` over all positions — so D1 and D2 are about the copy as well. -/
